@@ -75,6 +75,9 @@ def begin_match(m, lin, unsure):
             beg_tag += ('<a href="' + json_get(urls[0], 'value', str)
                         + '" target="_blank">')
             end_href = '</a>'
+    # NB: add_line_numbers() splits the page at <br> tags: a line break in
+    # a text from the proofreader must not produce one inside the tag
+    beg_tag = beg_tag.replace('<br>\n', '\n')
     return (beg_tag, end_href)
 
 def end_match():
